@@ -149,6 +149,23 @@ def conn (impl : String) : P Verdict := do
          model := (run.mBad.getD "in-band") ++ s!"[maxRetained={run.maxRet}]",
          spec := (run.sBad.getD "within-limits") ++ s!"[maxLive={run.maxLive},maxAlloc={run.maxAlloc},limitMem={limitMem},limitWork0={limitWork0}]" }
 
-def handlers : List (String × (String → P Verdict)) := [("C11.conn", conn)]
+/-- `C11.cap kind cap flows bytesPerFlow => liveSeq,livePool,status` — many concurrently open flows against a small
+capacity: by `run_length_le` at most `cap` entries are stored, each holding at most its buffered bytes, so the
+retained bytes are at most `cap × bytesPerFlow` (model), sequentially and in a worker configured with that capacity. -/
+def capOp (impl : String) : P Verdict := do
+  let kind ← tok; let cap ← nat; let flows ← nat; let per ← nat
+  let model := (min cap flows) * (min per (cap0 kind))
+  match impl.splitOn "," with
+  | [a, b, st] =>
+    let ls := a.toNat?.getD 0; let lp := b.toNat?.getD 0
+    let okOne (l : Nat) : Bool := l ≤ 2 * model + 64 * 1024 * cap / 8 + 400000
+    let m := okOne ls && okOne lp && st == "ok"
+    pure { modelEq := m, specOk := some m, tag := s!"cap:{kind}:{cap}",
+           model := s!"retained<=2*{model}+slack", spec := s!"seq={ls},pool={lp}" }
+  | _ => pure { modelEq := false, specOk := none, tag := "bad-impl-output" }
+where
+  cap0 (kind : String) : Nat := if kind == "http" then 64 * 1024 else 64 * 1024 + 4
+
+def handlers : List (String × (String → P Verdict)) := [("C11.conn", conn), ("C11.cap", capOp)]
 
 end Huginn.Drv.C11
